@@ -74,7 +74,12 @@ type eventCounter struct {
 	c       *Ctx
 	isEvent func(in ssa.Instruction) int
 	descend bool
-	memo    map[*ssa.Function]*countRange
+	// credit: extra events accounted at the entry of a block (used to
+	// attribute a deferred listener's updates to the branch that registers it)
+	credit map[*ssa.BasicBlock]countRange
+	// skip: callees that are not descended into
+	skip map[*ssa.Function]bool
+	memo map[*ssa.Function]*countRange
 	stack   map[*ssa.Function]bool
 }
 
@@ -89,7 +94,7 @@ func (ec *eventCounter) instr(in ssa.Instruction) countRange {
 		return r
 	}
 	if call, ok := in.(*ssa.Call); ok {
-		if callee := call.Call.StaticCallee(); callee != nil && len(callee.Blocks) > 0 && ec.c.inRuleScope(callee) {
+		if callee := call.Call.StaticCallee(); callee != nil && len(callee.Blocks) > 0 && ec.c.inRuleScope(callee) && !ec.skip[callee] {
 			cr := ec.function(callee)
 			r.Min += cr.Min
 			r.Max += cr.Max
@@ -110,7 +115,7 @@ func (ec *eventCounter) function(f *ssa.Function) countRange {
 	defer delete(ec.stack, f)
 	exits := map[*ssa.BasicBlock]bool{}
 	for _, b := range f.Blocks {
-		if len(b.Instrs) > 0 {
+		if len(b.Instrs) > 0 && b != f.Recover {
 			if _, ok := b.Instrs[len(b.Instrs)-1].(*ssa.Return); ok {
 				exits[b] = true
 			}
@@ -151,6 +156,11 @@ func (ec *eventCounter) region(start *ssa.BasicBlock, startIdx int, ends map[*ss
 			defer delete(onstack, b)
 		}
 		own := countRange{}
+		if from == 0 {
+			if cr, ok := ec.credit[b]; ok {
+				own = cr
+			}
+		}
 		for _, in := range b.Instrs[from:] {
 			r := ec.instr(in)
 			own.Min += r.Min
@@ -276,7 +286,7 @@ func errNilFact(cond ssa.Value, truth bool, e ssa.Value) (bool, bool) {
 func returnsOf(f *ssa.Function) []*ssa.Return {
 	var out []*ssa.Return
 	for _, b := range f.Blocks {
-		if len(b.Instrs) == 0 {
+		if len(b.Instrs) == 0 || b == f.Recover {
 			continue
 		}
 		if r, ok := b.Instrs[len(b.Instrs)-1].(*ssa.Return); ok {
